@@ -1192,3 +1192,7 @@ mod tests {
         DictDecoder::<T>::new()
     }
 }
+
+#[cfg(kani)]
+#[path = "/verif/kani/parquet/encodings/encoding/mod.rs"]
+mod verif_kani;
